@@ -85,6 +85,22 @@ pub fn run(args: &[String]) {
     let hi: usize = args[0].parse().unwrap();
     let seed = seed_from_env() ^ 0x1414;
     let shared = Shared::new();
+    // process history: the automatic planner is first used at f32 and f64 (SIMD back ends), and only then at the third
+    // types — a back-end choice remembered across element types would show up below
+    {
+        let mut rep = Report::default();
+        let r = crate::util::catch(|| {
+            let a = rustfft::FftPlanner::<f32>::new().plan_fft_forward(64);
+            let b = rustfft::FftPlanner::<f64>::new().plan_fft_inverse(100);
+            a.len() + b.len()
+        });
+        rep.evaluations += 1;
+        rep.nontrivial += 1;
+        if r != Ok(164) {
+            rep.fail("history f32/f64 planners first".into(), format!("{:?}", r));
+        }
+        shared.merge(rep);
+    }
     (0..hi).into_par_iter().for_each(|n| {
         let mut rep = Report::default();
         let mut rng = Rng::new(seed ^ (n as u64) * 13);
